@@ -17,11 +17,12 @@ ENV = dict(os.environ, CARGO_NET_OFFLINE="true")
 
 TRUSTED_BASE = [
     "Lean 4.33.0 kernel",
-    "axioms propext, Classical.choice, Quot.sound (and, where listed per theorem by the audit, *._native.bv_decide.ax_* from bv_decide)",
+    "axioms: every audited theorem depends on at most propext, Classical.choice, Quot.sound (the audit would list a *._native.bv_decide.ax_* axiom per theorem if one appeared; none does)",
     "tools/extract.py copies constants/tables from the Rust source into lean/Wee/Gen (fails closed on a missing pattern)",
+    "tools/rs2lean.py translates the straight-line bit-level functions (moves.rs mod compact and Move constructors/accessors, Square helpers, Evaluation::mate_in_ply/is_terminal) into lean/Wee/Gen/MoveFns.lean; trusted: its parser and the table of primitive mappings in tools/rs2lean.NOTES.md; the bridge to the hand model is proved (Wee/Proofs/MoveFnsBridge.lean)",
     "correspondence check: hand-written executable Lean model vs the real Rust code on generated inputs (differential; as strong as the generators)",
     "Wee/Spec/*.lean is the reading of what the property means",
-    "modelled, not verified: std (RwLock, channels, sort_by_cached_key, OnceCell, str slicing), rayon, regex, rand/rand_chacha, ciborium, rustc `as` casts and overflow-check semantics, IEEE-754 binary32 of the CPU",
+    "modelled, not verified: std (RwLock, channels, sort_by_cached_key, OnceCell, str slicing), rayon, the regex crate's conformance to Wee/Spec/Regex.lean on the one FEN literal, rand/rand_chacha, ciborium, rustc `as` casts and overflow-check semantics, IEEE-754 binary32 of the CPU",
 ]
 
 
